@@ -51,6 +51,8 @@ class ObjectiveFunctionsConfig(ImmutableBaseModel):
 
     @model_validator(mode="after")
     def _broadcast_and_normalize(self) -> Self:
+        if self._is_validated():
+            return self
         self._mutable()
         self.weights = normalize(self.weights)
         self._immutable()
